@@ -241,6 +241,17 @@ theorem anderson_run_preserves_balance (n : Nat) (a : Nat → Rat) (φ : Rat) (d
       (Anderson.call depth restart lstsq (Anderson.runSt depth restart lstsq gs fs k) (gs k) (fs k) k).1 = φ :=
   Anderson.run_preserves n a φ depth restart lstsq gs fs hg
 
+/-- the same for the accelerator with its column filter (difference columns of `F` that vanish relative to the current
+increment are left out of the least-squares problem, their weights are 0): the filtered mixing is `call` with a wrapped
+least-squares routine, so it is still an affine combination and keeps every linear constraint of the images -/
+theorem anderson_filtered_run_preserves_balance (n : Nat) (a : Nat → Rat) (φ : Rat) (dim depth : Nat) (restart : Option Nat)
+    (lstsq : List Anderson.V → Anderson.V → List Rat) (gs fs : Nat → Anderson.V)
+    (hg : ∀ k, Anderson.row n a (gs k) = φ) :
+    ∀ k, Anderson.row n a
+      (Anderson.callFiltered dim depth restart lstsq
+        (Anderson.runSt depth restart (Anderson.filteredLstsq dim lstsq) gs fs k) (gs k) (fs k) k).1 = φ :=
+  Anderson.run_preserves n a φ depth restart (Anderson.filteredLstsq dim lstsq) gs fs hg
+
 /-- every Bregman iterate's flux is the flux block of a solution of a full system with mass source `f`,
 whatever the weights and the flux right-hand side: balanced -/
 theorem bregman_flux_balanced {w : F → K} {D : C → F → K} (hD : ColSumZero D) {k : C} {g : F → K}
